@@ -1049,6 +1049,120 @@ def check_service(case):
   return out
 
 
+# ===========================================================================
+# policy_ns: designer policies with a caller-chosen `ns_root`
+# ===========================================================================
+NS_ROOTS = ['designer_policy_v0', 'custom_root', 'custom_root', 'ns2', 'ns2']
+
+
+@st.composite
+def policy_ns_strategy(draw):
+  kind = draw(st.sampled_from(['grid', 'shuffled_grid', 'quasi']))
+  return {
+      'designer': kind,
+      'space': draw(_det_space()),
+      'ns_root': draw(st.sampled_from(NS_ROOTS)),
+      'seed': draw(st.integers(0, 2 ** 31 - 1)),
+      't0': draw(lib.t0()),
+      'steps': draw(lib.steps(infeasible=True, paths=('direct',))),
+  }
+
+
+def check_policy_ns(case):
+  """A = one policy object kept in RAM; B = a new policy object after every
+  step marked `restart` (what a service does per request).  Both are built
+  through the public constructor with the same non-default `ns_root`; the
+  study (an InRamPolicySupporter each) carries the state in between."""
+  from vizier._src.algorithms.designers import grid
+  from vizier._src.algorithms.designers import quasi_random
+  from vizier._src.algorithms.policies import designer_policy as dp
+  from vizier._src.pythia import local_policy_supporters as lps
+  out = core.Out()
+  kind = case['designer']
+  problem = lib.make_problem(case['space'], [['m', 'MAXIMIZE', None]])
+  out.cls(kind, *spaces.classes_of(case['space']))
+  default_ns = case['ns_root'] == 'designer_policy_v0'
+  out.cls('ns_default' if default_ns else 'ns_custom')
+  if kind == 'quasi':
+    factory = quasi_random.QuasiRandomDesigner.from_problem
+    seed = case['seed']
+  else:
+    factory = grid.GridSearchDesigner.from_problem
+    seed = case['seed'] if kind == 'shuffled_grid' else None
+
+  def make(sup):
+    return dp.PartiallySerializableDesignerPolicy(
+        sup.study_config, sup, factory, ns_root=case['ns_root'], seed=seed)
+
+  t = case['t0']
+  with lib.clock(t):
+    sup_a = lps.InRamPolicySupporter(copy.deepcopy(problem))
+    sup_b = lps.InRamPolicySupporter(copy.deepcopy(problem))
+    try:
+      pol_a = make(sup_a)
+    except Exception as e:  # pylint: disable=broad-except
+      out.cls('A_raises:ctor:' + _exc(e))
+      return out
+    pol_b = make(sup_b)
+  restarts = 0
+  pend_a, pend_b = [], []
+  nt_pending = False
+  for i, step in enumerate(case['steps']):
+    t += step['dt']
+    with lib.clock(t):
+      try:
+        ta = list(sup_a.SuggestTrials(pol_a, step['count']))
+      except Exception as e:  # pylint: disable=broad-except
+        out.cls('A_raises:suggest:' + _exc(e))
+        return out
+      try:
+        tb = list(sup_b.SuggestTrials(pol_b, step['count']))
+      except Exception as e:  # pylint: disable=broad-except
+        out.violate('policy_ns/%s/suggest_raises_in_B/%s' % (kind, _exc(e)),
+                    'step %d restarts so far %d ns_root %r: %r' % (
+                        i, restarts, case['ns_root'], e))
+        return out
+    pa = [x.parameters.as_dict() for x in ta]
+    pb = [x.parameters.as_dict() for x in tb]
+    if pa != pb:
+      out.violate('policy_ns/%s/suggest/parameters_differ/%s' % (
+          kind, 'ns_default' if default_ns else 'ns_custom'),
+                  'step %d (restarts so far %d, ns_root %r): A=%.300r B=%.300r'
+                  % (i, restarts, case['ns_root'], pa, pb))
+      return out
+    if nt_pending and not default_ns:
+      out.nontrivial = True
+    nt_pending = False
+    pend_a.extend(ta)
+    pend_b.extend(tb)
+    fbs = list(step['fb'])
+    still_a, still_b = [], []
+    for xa, xb in zip(pend_a, pend_b):
+      fb = fbs.pop(0) if fbs else ['skip']
+      if fb[0] == 'skip':
+        still_a.append(xa)
+        still_b.append(xb)
+      else:
+        lib.finish(xa, fb, ['m'])
+        lib.finish(xb, fb, ['m'])
+    pend_a, pend_b = still_a, still_b
+    if step['restart']:
+      t += 1
+      with lib.clock(t):
+        try:
+          pol_b = make(sup_b)
+        except Exception as e:  # pylint: disable=broad-except
+          out.violate('policy_ns/%s/restart/ctor_raises/%s' % (kind, _exc(e)),
+                      'step %d: %r' % (i, e))
+          return out
+      restarts += 1
+      nt_pending = True
+      out.cls('restart_ns_default' if default_ns else 'restart_ns_custom')
+  out.cls('restarts_%s' % ('0' if restarts == 0 else '1' if restarts == 1
+                           else 'many'))
+  return out
+
+
 def _grid_cover(out, name, spec, first_g):
   """first_g: the first G suggestions; must be the whole grid, each once."""
   names = [p['name'] for p in spec['params']]
@@ -1132,4 +1246,10 @@ def families(tier):
                                     'recreated_after_data',
                                     'asked_for_whole_grid',
                                     'wrapped_around')),
+      core.Family('policy_ns', check_policy_ns, strategy=policy_ns_strategy,
+                  budget={'quick': 240, 'thorough': 4000},
+                  shards={'quick': 4, 'thorough': 16},
+                  required_classes=('grid', 'shuffled_grid', 'quasi',
+                                    'ns_default', 'restart_ns_custom',
+                                    'restarts_many')),
   ]
